@@ -1,4 +1,4 @@
-// C12 — each request is answered at most once, to the right requester      vp-link: core
+// C12 — each request is answered at most once, to the right requester      vp-link: core io
 //
 // (a) mpt_message_id2buf / mpt_message_buf2id: id (width boundaries, powers of 256 +-1, random 64 bit) x header
 //     width 0..9 on exact-size heap buffers. O: id2buf succeeds iff the id fits the width with the reply bit (top
@@ -12,8 +12,24 @@
 //     rejected send may be retried, answered/moved requests are refused, releasing the last handle of an armed,
 //     attached context sends exactly one default reply (msg == NULL); arming leaves v-tables, reference count
 //     and transport of the context alone; ASan/LSan silent.
+// (c) a stream input (mpt_stream_input over a socketpair) answering a harness client: see stream_history().
 #include "vp.hpp"
 #include "mpt_c.hpp"
+#include "ref/cobs.hpp"
+
+#define protected public
+#define private public
+#include "connection.h"
+#include "notify.h"
+#include "stream.h"
+#undef protected
+#undef private
+
+#include <fcntl.h>
+#include <poll.h>
+#include <signal.h>
+#include <unistd.h>
+#include <sys/socket.h>
 
 using namespace vp;
 using namespace mpt;
@@ -474,6 +490,260 @@ static void history(Ctx &c) {
   if (w.sends_ok && w.interesting) c.nontrivial();
 }
 
+// ------------------------------------------------------------------ (c) stream input over a socketpair
+// Server: mpt_stream_input(sock, RdWr|Write|Buffer, COBS | COBS/R, idlen 1..8), driven the way the notifier drives an
+// input (next(ready events), dispatch until no Retry, next(POLLIN|POLLOUT) to flush). Client: the harness, raw
+// non-blocking socket + the reference COBS codec. Messages: request (non-zero id, top bit clear), one-way (all-zero
+// id), reply-type (top bit set). The harness handler answers through ev->reply (mpt_context_reply / reply(msg),
+// once or twice), tries to defer, or does nothing / fails (default reply expected).
+// O: every frame the server sends belongs to exactly one request that was delivered (own id bytes), is marked as a
+// reply (top bit of the first byte), no request gets two, every delivered request has exactly one after its round
+// (unless a deferred handle holds it), one-way and reply-type messages get none.
+enum { KRequest, KOneWay, KReplyType };
+enum { ANothing, AFail, AContextReply, ARawReply, AReplyTwice, ADefer, NAction };
+static const char *kActionName[] = {"nothing", "fail", "mpt_context_reply", "reply(msg)", "reply twice", "defer"};
+struct SMsg {
+  int kind, action, hret, code;
+  bool defer_then_reply;
+  std::vector<uint8_t> id;
+  std::string payload;
+  // observed
+  unsigned delivered = 0, replies = 0, explicit_ok = 0;
+  bool had_ctx = false, second_accepted = false, held = false, garbled = false;
+  int r1 = 1000, r2 = 1000;
+  std::vector<uint8_t> reply_body;
+};
+struct CInput;
+struct CInputVptr {
+  CMetaVptr meta;
+  int (*next)(CInput *, int);
+  int (*dispatch)(CInput *, int (*)(void *, event *), void *);
+};
+struct CInput { const CInputVptr *vptr; };
+
+struct StreamWorld {
+  Ctx &c;
+  int cfd = -1;
+  CInput *in = 0;
+  size_t idlen = 1;
+  ref::Dialect dialect = ref::Cobs;
+  std::vector<SMsg> msgs;
+  std::vector<std::pair<CDetached *, size_t>> handles;  // deferred handle, message index
+  std::vector<uint8_t> rx;
+  unsigned unknown_delivery = 0;
+  uint8_t rawmsg[6] = {0x01, 0x07, 'r', 'a', 'w', '!'};
+
+  explicit StreamWorld(Ctx &ctx) : c(ctx) {}
+  ~StreamWorld() {
+    for (auto &h : handles) h.first->vptr->reply(h.first, 0);
+    if (in) in->vptr->meta.unref((CMeta *)in);
+    if (cfd >= 0) close(cfd);
+  }
+
+  static int handler(void *arg, event *ev) {  // library frames above: record, never throw
+    StreamWorld *w = (StreamWorld *)arg;
+    if (!ev || !ev->msg) { ++w->unknown_delivery; return 0; }
+    message m = *ev->msg;
+    char head[8] = {0};
+    size_t n = mpt_message_read(&m, 5, head);
+    unsigned idx = 0;
+    if (n != 5 || head[0] != 'm' || head[4] != ';' || sscanf(head + 1, "%3u", &idx) != 1 || idx >= w->msgs.size()) { ++w->unknown_delivery; return 0; }
+    SMsg &s = w->msgs[idx];
+    ++s.delivered;
+    std::string rest(s.payload.size() > 5 ? s.payload.size() - 5 : 0, 0);
+    size_t k = rest.empty() ? 0 : mpt_message_read(&m, rest.size(), &rest[0]);
+    if (k != rest.size() || s.payload.compare(5, std::string::npos, rest) || mpt_message_length(&m)) s.garbled = true;
+    s.had_ctx = ev->reply != 0;
+    CReply *rc = (CReply *)ev->reply;
+    int action = s.action;
+    if (action == ADefer) {
+      CDetached *h = rc ? rc->vptr->defer(rc) : 0;
+      if (h) { s.held = true; w->handles.push_back({h, idx}); return s.hret; }
+      action = s.defer_then_reply ? AContextReply : ANothing;  // this context cannot defer: answer or leave it to the default
+    }
+    switch (action) {
+      case AContextReply:
+        s.r1 = mpt_context_reply(ev->reply, s.code, "%s", "done");
+        if (rc && s.r1 >= 0) ++s.explicit_ok;
+        break;
+      case ARawReply:
+      case AReplyTwice:
+        if (!rc) break;
+        { message r(w->rawmsg, sizeof w->rawmsg); s.r1 = rc->vptr->reply(rc, &r); if (s.r1 >= 0) ++s.explicit_ok; }
+        if (action == AReplyTwice) { message r(w->rawmsg, 2); s.r2 = rc->vptr->reply(rc, &r); if (s.r2 >= 0) s.second_accepted = true; }
+        break;
+      default: break;
+    }
+    return s.hret;
+  }
+
+  void open() {
+    idlen = c.range(1, 8);
+    bool inl = c.chance(80);
+    dialect = inl ? ref::CobsR : ref::Cobs;
+    int sv[2];
+    VP_CHECK(c, socketpair(AF_UNIX, SOCK_STREAM | SOCK_NONBLOCK | SOCK_CLOEXEC, 0, sv) == 0, "harness-socketpair", "socketpair failed");
+    cfd = sv[1];
+    CObj<mpt::socket> sock;
+    sock->_id = sv[0];
+    c.logf("mpt_stream_input(socketpair, RdWr|Write|Buffer, %s, id length %zu)", inl ? "COBS/R" : "COBS", idlen);
+    in = (CInput *)mpt_stream_input(sock, mpt::stream::RdWr | mpt::stream::Write | mpt::stream::Buffer, inl ? MPT_ENUM(EncodingCobsInline) : MPT_ENUM(EncodingCobs), idlen);
+    if (!in) close(sv[0]);
+    VP_CHECK(c, in, "create-refused", "mpt_stream_input(id length %zu) returned NULL", idlen);
+  }
+  bool readable(int fd) {
+    struct pollfd p = {fd, POLLIN, 0};
+    return poll(&p, 1, 0) > 0 && (p.revents & POLLIN);
+  }
+  int server_fd() {
+    int fd = -1;
+    in->vptr->meta.convert((CMeta *)in, TypeUnixSocket, &fd);
+    return fd;
+  }
+  void client_send(const SMsg &s) {
+    std::vector<uint8_t> data = s.id;
+    data.insert(data.end(), s.payload.begin(), s.payload.end());
+    std::vector<uint8_t> f = ref::encode(dialect, data.data(), data.size());
+    ssize_t r = write(cfd, f.data(), f.size());
+    VP_CHECK(c, r == (ssize_t)f.size(), "harness-write", "client write of %zu bytes returned %zd", f.size(), r);
+  }
+  // what the notifier does with a ready input, then flush
+  void serve(int sfd) {
+    for (int guard = 0; guard < 64 && readable(sfd); guard++) {
+      int r = in->vptr->next(in, POLLIN);
+      c.logf("  next(POLLIN) -> %d", r);
+      if (r < 0) break;
+      for (int g2 = 0; g2 < 64; g2++) {
+        int d = in->vptr->dispatch(in, handler, this);
+        c.logf("  dispatch -> 0x%x", d);
+        if (d < 0 || !(d & 0x10000 /* Retry */)) break;
+      }
+    }
+    for (int guard = 0; guard < 8; guard++) {
+      int r = in->vptr->next(in, POLLIN | POLLOUT);
+      c.logf("  next(POLLIN|POLLOUT) -> %d", r);
+      if (r <= 0 || !(r & POLLOUT)) break;
+    }
+  }
+  struct Anomaly { int prio = 0; std::string tag, msg; };
+  void note(Anomaly &a, int prio, const char *tag, const std::string &msg) { if (prio > a.prio) { a.prio = prio; a.tag = tag; a.msg = msg; } }
+  // read everything the server sent, account every frame to a request
+  void client_collect(Anomaly &a) {
+    uint8_t buf[4096];
+    for (int guard = 0; guard < 256; guard++) {
+      ssize_t r = read(cfd, buf, sizeof buf);
+      if (r <= 0) break;
+      rx.insert(rx.end(), buf, buf + r);
+    }
+    size_t start = 0;
+    for (size_t i = 0; i < rx.size(); i++) {
+      if (rx[i]) continue;
+      std::vector<uint8_t> body;
+      ref::Verdict v = ref::decode(dialect, rx.data() + start, i - start, body);
+      std::string shown = hex(body.data(), body.size(), 40);
+      c.logf("  client got frame: %s%s", shown.c_str(), v == ref::WellFormed ? "" : " (malformed)");
+      start = i + 1;
+      if (v != ref::WellFormed || body.size() < idlen) { note(a, 1, "stream-frame", "the server sent a frame that is not a well-formed message with an id: " + shown); continue; }
+      std::vector<uint8_t> id(body.begin(), body.begin() + idlen);
+      bool marked = id[0] & 0x80;
+      id[0] &= 0x7f;
+      SMsg *rq = 0;
+      for (auto &s : msgs) if (s.kind == KRequest && s.delivered && s.id == id) rq = &s;
+      if (!rq) { note(a, 5, "unsolicited-reply", "the server sent a frame with id " + hex(body.data(), idlen) + " (" + shown + "): no delivered request has that id" + (std::all_of(id.begin(), id.end(), [](uint8_t b) { return !b; }) ? " — zero id: a reply to a message that wants no answer" : "")); continue; }
+      if (++rq->replies > 1) note(a, 4, "reply-twice", "request " + hex(rq->id.data(), idlen) + " got " + std::to_string(rq->replies) + " replies");
+      if (!marked) note(a, 2, "reply-not-marked", "the reply to request " + hex(rq->id.data(), idlen) + " carries id bytes " + hex(body.data(), idlen) + ": the reply bit (top bit of the first byte) is not set, the peer reads it as a new request");
+      rq->reply_body.assign(body.begin() + idlen, body.end());
+    }
+    rx.erase(rx.begin(), rx.begin() + start);
+  }
+  void settle(Anomaly &a, size_t from) {
+    for (size_t i = from; i < msgs.size(); i++) {
+      SMsg &s = msgs[i];
+      if (s.delivered != 1) { note(a, 6, "stream-delivery", "message " + std::to_string(i) + " (" + s.payload + ") was delivered to the handler " + std::to_string(s.delivered) + " times"); continue; }
+      if (s.garbled) note(a, 6, "stream-delivery", "message " + std::to_string(i) + " reached the handler with a different payload");
+      if (s.kind != KRequest) continue;
+      if (s.second_accepted) note(a, 4, "reply-not-refused", "request " + hex(s.id.data(), idlen) + ": the second reply() in the handler returned " + std::to_string(s.r2) + " after the first returned " + std::to_string(s.r1));
+      if (!s.held && s.replies == 0) note(a, 3, "reply-missing", "request " + hex(s.id.data(), idlen) + " (handler: " + kActionName[s.action] + ", returned " + std::to_string(s.hret) + ", reply context " + (s.had_ctx ? "handed out" : "NULL") + ") got no reply");
+      if (s.replies == 1 && s.explicit_ok) {
+        std::vector<uint8_t> want;
+        if (s.action == ARawReply || s.action == AReplyTwice) want.assign(rawmsg, rawmsg + sizeof rawmsg);
+        else { want = {0x01, (uint8_t)(int8_t)s.code, 'd', 'o', 'n', 'e'}; }
+        if (s.reply_body != want) note(a, 1, "reply-content", "explicit answer to " + hex(s.id.data(), idlen) + " arrived as " + hex(s.reply_body.data(), s.reply_body.size(), 40) + ", sent " + hex(want.data(), want.size(), 40));
+        c.label("stream:explicit-reply");
+      } else if (s.replies == 1 && !s.held) {
+        bool echo = s.reply_body.size() >= idlen && std::equal(s.payload.begin(), s.payload.end(), s.reply_body.begin() + idlen, s.reply_body.end());
+        c.label(echo ? "stream:default-reply-echoes-request" : s.reply_body.size() == 2 && s.reply_body[0] == 0x01 ? "stream:default-reply-answer-header" : "stream:default-reply-other");
+      }
+    }
+    if (unknown_delivery) note(a, 6, "stream-delivery", "the handler was called " + std::to_string(unknown_delivery) + " time(s) with a message the client never sent");
+    if (a.prio) c.fail(a.tag.c_str(), "%s", a.msg.c_str());
+  }
+};
+
+static void stream_history(Ctx &c) {
+  signal(SIGPIPE, SIG_IGN);
+  StreamWorld w(c);
+  w.open();
+  int sfd = w.server_fd();
+  VP_CHECK(c, sfd >= 0, "harness-socketpair", "stream input does not report its descriptor");
+  unsigned defaults = 0, explicits = 0, after_default = 0;
+  while (c.more() && w.msgs.size() < 100) {
+    size_t from = w.msgs.size(), k = c.range(1, 4);
+    c.logf("-- round: %zu message(s)", k);
+    for (size_t j = 0; j < k && w.msgs.size() < 100; j++) {
+      SMsg s;
+      size_t idx = w.msgs.size();
+      s.kind = (int)c.weighted({6, 3, 1});
+      s.id.assign(w.idlen, 0);
+      if (s.kind != KOneWay) {
+        s.id = c.bytes(w.idlen);
+        s.id[w.idlen - 1] = (uint8_t)(idx + 1);
+        s.id[0] &= 0x7f;
+        if (s.kind == KReplyType) s.id[0] |= 0x80;
+      }
+      char head[8];
+      snprintf(head, sizeof head, "m%03zu;", idx);
+      s.payload = head;
+      for (size_t n = c.near({0, 1, 30}, 60); n; n--) s.payload += (char)('a' + c.pick(26));
+      s.action = (int)c.weighted({4, 2, 4, 2, 2, 2});
+      s.hret = s.action == AFail ? -(int)c.range(1, 5) : c.chance(40) ? -(int)c.range(1, 5) : 0;
+      s.code = (int)c.range(0, 6) - 3;
+      s.defer_then_reply = c.flip();
+      c.logf("client sends %s id %s payload '%s'   handler: %s, returns %d", s.kind == KRequest ? "request" : s.kind == KOneWay ? "one-way message" : "reply-type message", hex(s.id.data(), w.idlen).c_str(), s.payload.c_str(), kActionName[s.action], s.hret);
+      w.msgs.push_back(s);
+      w.client_send(w.msgs.back());
+      c.label(s.kind == KRequest ? "stream:request" : s.kind == KOneWay ? "stream:one-way" : "stream:reply-type");
+    }
+    w.serve(sfd);
+    StreamWorld::Anomaly a;
+    w.client_collect(a);
+    w.settle(a, from);
+    for (size_t i = from; i < w.msgs.size(); i++) {
+      if (defaults) ++after_default;
+      if (w.msgs[i].kind != KRequest) continue;
+      if (w.msgs[i].explicit_ok) ++explicits; else if (!w.msgs[i].held) ++defaults;
+    }
+    // deferred handles (none with a context that cannot defer): answer now or keep
+    for (size_t h = 0; h < w.handles.size();) {
+      if (!c.flip()) { ++h; continue; }
+      message r(w.rawmsg, 2);
+      int ret = w.handles[h].first->vptr->reply(w.handles[h].first, c.flip() ? &r : 0);
+      c.logf("deferred reply for message %zu -> %d", w.handles[h].second, ret);
+      w.msgs[w.handles[h].second].held = false;
+      w.handles.erase(w.handles.begin() + h);
+      c.label("stream:deferred-reply");
+    }
+  }
+  // release what is left and look once more: nothing but the replies of the deferred requests may arrive
+  while (!w.handles.empty()) { w.handles.back().first->vptr->reply(w.handles.back().first, 0); w.msgs[w.handles.back().second].held = false; w.handles.pop_back(); }
+  w.serve(sfd);
+  StreamWorld::Anomaly a;
+  w.client_collect(a);
+  w.settle(a, 0);
+  if (defaults) c.label("stream:default-reply");
+  if ((defaults && after_default) || (defaults && explicits)) c.nontrivial();
+}
+
 static void run(Ctx &c) {
   MuteLog mute(c.verbose());
   uint8_t sel = c.u8();
@@ -484,6 +754,7 @@ static void run(Ctx &c) {
     c.nontrivial();
     return;
   }
+  if (sel >= 0xd0) { stream_history(c); c.label("part:c-stream-input"); return; }  // 0xd0..0xfe
   switch (sel % 8) {
     case 0: case 1: { size_t w = c.range(0, 9); id_case(c, draw_id(c, w), w); c.label("part:a-id"); } break;
     case 2: header_case(c); c.label("part:a-header"); break;
@@ -507,8 +778,12 @@ static Target t = {
     "mpt_message_id2buf + mpt_message_buf2id on exact-size heap buffers, and mpt_message_buf2id on arbitrary request headers of 0..12 bytes; (b) history on one "
     "mpt_reply_deferrable context (id length near 1/2/4/5/8/9, capacity = length or length+1..4): arm (convert(TypeReplyDataPtr)+mpt_reply_set), reply(msg|NULL), mpt_context_reply, "
     "defer, deferred reply, deferred release, addref/unref of the context, cleanup in drawn order; transport result drawn per operation (27% rejected). "
+    "(c) [first byte 0xd0..0xfe, 18%] mpt_stream_input(socketpair, RdWr|Write|Buffer, COBS|COBS/R, id length 1..8) served the way the notifier serves an input; harness client sends rounds of 1..4 "
+    "messages (request with non-zero id / one-way with zero id / reply-type, text payload 5..65 bytes), handler per message: nothing, fail, mpt_context_reply, reply(msg), reply twice, defer; "
+    "the client decodes every frame the server sends with the reference COBS codec and accounts it to a delivered request. "
     "exhaustive: all ids with <= 2 significant bytes x widths 0..9. non-trivial: (a) round trip at width >= 2 or id within 2 of a reply-bit boundary or a refused 9+ byte header; "
-    "(b) at least one accepted send and at least one of {defer, refused second reply, retry after rejection, default reply on release}; distinct by hash of the draw sequence.",
+    "(b) at least one accepted send and at least one of {defer, refused second reply, retry after rejection, default reply on release}; "
+    "(c) a default-answered request followed by a later message, or default and explicit answers in one case; distinct by hash of the draw sequence.",
     run,
     {160, 600},
     false,
